@@ -31,24 +31,27 @@ ASSUMPTIONS = [
 
 def check_scaffold(rows_plain, queries, rec, case):
     rows = conv.mk_rows(rows_plain)
+    # the scaffold's name as handed to the constructor: usually a string, sometimes an int (numbered chromosomes) -
+    # names are text in this code base (constructors coerce with str()), baits always carry the text form
+    sname = case.get("scaffold_name", "s") if isinstance(case, dict) else "s"
     k = case.get("built_in_two_parts") if isinstance(case, dict) else None
     if k:
         # the scaffold is assembled the way the remapper builds scaffolds: a first part, its length read,
         # then the rest appended
         k = min(k, len(rows))
-        scaffold = Scaffold("s", rows[:k])
+        scaffold = Scaffold(sname, rows[:k])
         _ = scaffold.length
         scaffold.append_scaffold(Scaffold("tail", rows[k:]))
         _ = scaffold.fragments_length
     else:
-        scaffold = Scaffold("s", rows)
+        scaffold = Scaffold(sname, rows)
     rows = scaffold.rows
     how = case.get("scaffolds_as", "list") if isinstance(case, dict) else "list"
     if how == "generator":
         # any iterable is accepted by the constructor, also one that can be consumed only once
         asm = must(IndexedAssembly, "a", scaffolds=(x for x in [scaffold]), what="IndexedAssembly(generator)")
     elif how == "dict_values":
-        asm = must(IndexedAssembly, "a", scaffolds={"s": scaffold}.values(), what="IndexedAssembly(dict view)")
+        asm = must(IndexedAssembly, "a", scaffolds={"k": scaffold}.values(), what="IndexedAssembly(dict view)")
     elif how == "new_from_assembly":
         from tola.assembly.assembly import Assembly
 
@@ -61,7 +64,7 @@ def check_scaffold(rows_plain, queries, rec, case):
     if isinstance(case, dict) and case.get("rejected_duplicate"):
         # a second scaffold of the same name is refused; that must not disturb the one already indexed
         try:
-            asm.add_scaffold(Scaffold("s", conv.mk_rows(case["rejected_duplicate"])))
+            asm.add_scaffold(Scaffold(str(sname), conv.mk_rows(case["rejected_duplicate"])))
         except ValueError:
             pass
         else:
@@ -73,7 +76,7 @@ def check_scaffold(rows_plain, queries, rec, case):
     classes = set()
     for a, b, strand in queries:
         exp = ref.brute_overlap(rows_plain, a, b)
-        bait = Fragment("s", a, b, strand)
+        bait = Fragment(str(sname), a, b, strand)
         got = must(asm.find_overlaps, bait, what=f"find_overlaps([{a},{b}])")
         # classification
         raw = [k for k, (s, e) in enumerate(spans) if s <= b and e >= a]
@@ -142,6 +145,10 @@ def cases(draw):
         f = draw(st.sampled_from([10**4, 10**7, 2**29, 10**9, 2**50]))
         rows = [["G", r[1] * f, r[2]] if r[0] == "G" else ["F", r[1], r[2], r[2] + (r[3] - r[2] + 1) * f - 1, r[4]] for r in rows]
         extra["scaled_by"] = f
+    if draw(st.integers(0, 5)) == 0:
+        extra["scaffold_name"] = draw(st.sampled_from([7, 12, "chr 1", "x", ""]))
+        if extra["scaffold_name"] == "":
+            del extra["scaffold_name"]
     if draw(st.integers(0, 2)) == 0:
         extra["scaffolds_as"] = draw(st.sampled_from(["generator", "dict_values", "new_from_assembly", "add_later"]))
     total = ref.rows_len(rows)
